@@ -108,10 +108,6 @@ theorem C02_prefix (us : List DUnit) (st : PState) (hi : Idle st) (hwf : âˆ€ u â
     descriptions) never alter the grouping, wherever they are inserted -/
 theorem C02_ignorable (p : Position) (us1 us2 : List DUnit) (u : DUnit) (hu : Ignorable u) :
     dexpected p (us1 ++ u :: us2) = dexpected p (us1 ++ us2) âˆ§ dendPos p (us1 ++ u :: us2) = dendPos p (us1 ++ us2) := by
-  have hone : dexpected p [u] = [] âˆ§ dendPos p [u] = p := by
-    cases u with
-    | single c => cases c <;> simp_all [Ignorable, dexpected, dendPos, changeNextTs]
-    | _ => simp_all [Ignorable, dexpected, dendPos]
   have h1 := SL.dexpected_append p us1 (u :: us2)
   have h2 := SL.dexpected_append p us1 us2
   rw [h1.1, h1.2, h2.1, h2.2, SL.dexpected_cons _ u us2, SL.dendPos_cons _ u us2]
